@@ -372,6 +372,12 @@ fn replay_main(a: &[String]) {
 
 /// `tvh exec` entry for op "ProviderLock.call": re-run a history (fresh process) and return step `step`
 pub fn exec_history_step(a: &Value) -> Value {
+    if a.get("plan").is_some() {
+        // a call of a recorded concurrent session: re-run the whole session (fresh process), return call (t, k)
+        let line = run_session(0, &a["plan"]);
+        let (t, k) = (a["t"].as_u64().expect("t") as usize, a["k"].as_u64().expect("k") as usize);
+        return line["thr"][t - 1][k - 1]["out"].clone();
+    }
     let order = a["order"].as_array().expect("order");
     let step = a["step"].as_u64().expect("step") as usize;
     let (_, obs) = run_history(&order[..step]);
